@@ -47,11 +47,12 @@ def check_send(cf, cmd, ndata, spec_fields, step, case):
                             % (step + 1, el, fields.get(el), want), case)
 
 
-def run_history(cf, steps, pc_id, M, from_decoded=False):
+def run_history(cf, steps, pc_id, M, from_decoded=False, lazy=False):
     """steps: list of {'fields': {...}, 'data': bytes|None}; the SAME message object is re-sent after
-    applying each step's field changes and data-set assignment."""
+    applying each step's field changes and data-set assignment.  lazy=True: the provider consumes the
+    queued messages only after all sends were issued (slow provider thread)."""
     from pynetdicom2 import dimsemessages, dsutils
-    case = {'cf': cf, 'steps': steps, 'pc_id': pc_id, 'M': M, 'from_decoded': from_decoded}
+    case = {'cf': cf, 'steps': steps, 'pc_id': pc_id, 'M': M, 'from_decoded': from_decoded, 'lazy': lazy}
     cls = dimsemessages.MESSAGE_TYPE[cf]
     try:
         if from_decoded:
@@ -60,15 +61,30 @@ def run_history(cf, steps, pc_id, M, from_decoded=False):
             msg = cls(dsutils.decode(refcmd.encode(first), True, True))
         else:
             msg = cls()
-        assoc = dg.make_assoc(M)
+        assoc = dg.make_assoc(M, lazy)
         current = {}
+        snapshots = []
         for i, stp in enumerate(steps):
             for kw, v in stp['fields'].items():
                 setattr(msg.command_set, kw, v)
                 current[kw] = v
             msg.data_set = stp['data']
-            cmd, ndata = observe(assoc, msg, pc_id)
-            check_send(cf, cmd, ndata, current, i, case)
+            if lazy:
+                assoc.send(msg, pc_id)
+                snapshots.append((dict(current), bool(stp['data'])))
+            else:
+                cmd, ndata = observe(assoc, msg, pc_id)
+                check_send(cf, cmd, ndata, current, i, case)
+        if lazy:
+            assoc.dul.drain()
+            for i, (pdus, (cur, has_data)) in enumerate(zip(assoc.dul.sent, snapshots)):
+                frags = dg.split_fragments(pdus)
+                cmd = b''.join(p for _, h, p in frags if h is not None and h & 1)
+                ndata = len([1 for _, h, p in frags if h is not None and not h & 1])
+                check_send(cf, cmd, ndata, cur, i, case)
+                if (ndata > 0) != has_data:
+                    raise Violation('C08:late-encoding', 'send #%d: %d data fragments transmitted, message had %s data '
+                                    'set when it was sent' % (i + 1, ndata, 'a' if has_data else 'no'), case)
     except Violation:
         raise
     except Exception as exc:
@@ -110,6 +126,7 @@ def run_class(ctx, job):
             ctx.case((cf, steps, dec), nontrivial(steps), labels=labels(cf, steps, dec),
                      sample={'cf': cf, 'steps': steps, 'from_decoded': dec})
             run_history(cf, steps, pc_id, M, dec)
+            run_history(cf, steps, pc_id, M, dec, lazy=True)
         hyp_search(ctx, history(cf), fn, job['n'], name='C08-%04X' % cf, max_buckets=4)
 
 
@@ -148,4 +165,4 @@ def run(ctx):
 
 def replay(case):
     warnings.simplefilter('ignore')
-    run_history(case['cf'], case['steps'], case['pc_id'], case['M'], case.get('from_decoded', False))
+    run_history(case['cf'], case['steps'], case['pc_id'], case['M'], case.get('from_decoded', False), case.get('lazy', False))
